@@ -1025,4 +1025,44 @@ def encRun (rnd : Bool) (e : Enc) : List Op → Option (Enc × Bool)
     | some (e', true) => encRun rnd e' ops
     | some (e', false) => some (e', false)
 
+/-! ## Part 2f — JSON values as trees and the call sequence that writes them (what protojson's
+`encoder.marshalMessage/marshalSingular/marshalList/marshalMap` do, abstractly: one `StartObject`,
+`WriteName`+value per member, `EndObject`, …).  Numbers are given by their literal. -/
+
+mutual
+inductive JVal
+  | null
+  | bool (b : Bool)
+  | num (lit : Bytes)
+  | str (s : Bytes)
+  | obj (ms : JMembers)
+  | arr (es : JElems)
+inductive JMembers
+  | nil
+  | cons (k : Bytes) (v : JVal) (rest : JMembers)
+inductive JElems
+  | nil
+  | cons (v : JVal) (rest : JElems)
+end
+
+mutual
+def opsOf : JVal → List Op
+  | .null => [.null]
+  | .bool b => [.bool b]
+  | .num lit => [.float lit]
+  | .str s => [.str s]
+  | .obj ms => .startObject :: (opsOfMembers ms ++ [.endObject])
+  | .arr es => .startArray :: (opsOfElems es ++ [.endArray])
+def opsOfMembers : JMembers → List Op
+  | .nil => []
+  | .cons k v rest => .name k :: (opsOf v ++ opsOfMembers rest)
+def opsOfElems : JElems → List Op
+  | .nil => []
+  | .cons v rest => opsOf v ++ opsOfElems rest
+end
+
+/-- `Encoder` output for the value `v` with the given indent (`""` = compact) -/
+def encodeValue (rnd : Bool) (indent : Bytes) (v : JVal) : Option (Bytes × Bool) :=
+  (encRun rnd { indent := indent } (opsOf v)).map fun r => (r.1.out, r.2)
+
 end JsonLex
